@@ -6,6 +6,7 @@ import (
 	"errors"
 	"fmt"
 	"path/filepath"
+	"reflect"
 	"regexp"
 	"sort"
 	"strings"
@@ -246,12 +247,19 @@ type snap struct {
 	Flags    int    `json:"flags"`
 }
 
+// metaFlags reads the two confidentiality flags directly from the meta struct
+// (unexported fields, read by reflection): the monitor must not depend on
+// Meta.CheckPermission, which is part of the mechanism under test.
 func metaFlags(m *record.Meta) int {
 	f := 0
-	if !m.CheckPermission(true, false) {
+	if m == nil {
+		return 0
+	}
+	v := reflect.ValueOf(m).Elem()
+	if v.FieldByName("secret").Bool() {
 		f |= flagSecret
 	}
-	if !m.CheckPermission(false, true) {
+	if v.FieldByName("cronjewel").Bool() {
 		f |= flagCrown
 	}
 	return f
@@ -303,13 +311,24 @@ func prefixQuery(db, prefix string) *query.Query {
 	return query.New(db + ":" + prefix).MustBeValid()
 }
 
-// drainQuery reads a query to its end.
+// drainQuery reads a query to its end. The storages' query executors give up when
+// the consumer does not take a record within one second (wall clock), so the records
+// are taken first and rendered afterwards.
 func drainQuery(it interface {
 	Err() error
 }, next <-chan record.Record) ([]obsRec, error) {
-	var out []obsRec
+	var raw []record.Record
 	for r := range next {
+		raw = append(raw, r)
+	}
+	err := it.Err()
+	out := make([]obsRec, 0, len(raw))
+	for _, r := range raw {
 		out = append(out, observe(r))
 	}
-	return out, it.Err()
+	if err == nil {
+		// Iterator.Finish closes Next before it stores the error
+		err = it.Err()
+	}
+	return out, err
 }
